@@ -21,6 +21,69 @@ def fams(*fs):
     return list(fs)
 
 
+def run_c18(pid, spec, tier, seed, replay=None):
+    """C18: TLC enumerates the structured input domain (spec/GrpcTimeoutGen.tla), every input is
+    executed through the public API against the real code, TLC validates the observed deadlines
+    against the reference function (spec/GrpcTimeoutTrace.tla)."""
+    import concurrent.futures as cf
+    import subprocess
+    binary = orch.build_harness()
+    d = orch.fresh_dir("run-%s-%s" % (pid, tier))
+    vec = os.path.join(d, "vectors.json")
+    r = orch.tlc(os.path.join(orch.SPEC, "GrpcTimeoutGen.tla"), os.path.join(orch.SPEC, "GrpcTimeoutGen.cfg"),
+                 env={"VERIF_OUT": vec, "VERIF_GT_MAXLEN": "3" if tier == "quick" else "4"})
+    if not os.path.exists(vec):
+        raise orch.Infra("TLC did not generate the input table:\n" + r.stdout[-1500:])
+    nvec = len(json.load(open(vec)))
+    shards = 8
+    crashes = []
+
+    def one(k):
+        trc = os.path.join(d, "gt%d.ndjson" % k)
+        env = dict(os.environ, VERIF_VECTORS=vec, VERIF_TRACES=trc, VERIF_SHARD="%d/%d" % (k, shards), GOTRACEBACK="all")
+        p = subprocess.run([binary, "-test.run", "TestTimeouts", "-test.timeout", "0"], env=env, stdout=subprocess.PIPE,
+                           stderr=subprocess.STDOUT, text=True)
+        if p.returncode != 0:
+            import re
+            m = re.search(r"^(panic: .*|fatal error: .*)$", p.stdout, re.M)
+            crashes.append({"scn": k, "name": "grpc-timeout shard %d" % k, "rc": p.returncode, "banner": m.group(1) if m else "",
+                            "timeout": False, "output": p.stdout[-4000:], "scenario": {"name": "grpc-timeout shard %d" % k}})
+        return trc
+    with cf.ThreadPoolExecutor(max_workers=shards) as ex:
+        traces = list(ex.map(one, range(shards)))
+    viols = []
+    states = 0
+    lines = 0
+    samples = []
+    for tf in traces:
+        if not os.path.exists(tf):
+            continue
+        with open(tf, "a") as f:
+            f.write('{"ev":"end"}\n')
+        outf = tf + ".verdict.json"
+        r = orch.tlc(os.path.join(orch.SPEC, "GrpcTimeoutTrace.tla"), os.path.join(orch.SPEC, "GrpcTimeoutTrace.cfg"),
+                     env={"VERIF_TRACE": tf, "VERIF_OUT": outf})
+        if not os.path.exists(outf):
+            raise orch.Infra("TLC did not finish validating %s:\n%s" % (tf, r.stdout[-1500:]))
+        v = json.load(open(outf))
+        ls = open(tf).read().split("\n")
+        lines += v["lines"] - 1
+        states += orch.tlc_stats(r.stdout)[0]
+        if not samples:
+            samples = [json.loads(x) for x in ls[:5] if x.startswith('{"ev":"gt"')]
+        for idx, name, line, detail in v["violations"]:
+            e = json.loads(ls[line - 1])
+            viols.append({"formula": name, "detail": detail, "trace_file": None, "trace": None, "line": line,
+                          "scenario": {"name": "grpc-timeout %r" % ["".join(x) for x in e["vals"]], "event": e}, "k": None, "scn": idx})
+    cov = {"states": states, "transitions": states, "traces_validated_against_impl": lines, "evaluations": lines,
+           "distinct_nontrivial": lines, "samples": samples, "exhaustive": lines == nvec,
+           "rule": "the input domain is enumerated by TLC from spec/GrpcTimeoutGen.tla (all strings of length <= %s over a 13-character "
+                   "alphabet, digit strings of every length 1..20 in four fill patterns x 6 units, per-unit boundary values, pairs of repeated "
+                   "headers); every input is distinct by construction and executed once through the public API" % ("3" if tier == "quick" else "4"),
+           "inputs_enumerated": nvec}
+    return {"violations": viols, "crashes": crashes, "coverage": cov, "trace_files": []}
+
+
 HANG = "fatal error: all goroutines are asleep - deadlock!"
 
 PROPS = {
@@ -62,6 +125,10 @@ PROPS = {
     "C09": {"level": "model_checking", "hang": True,
             "quick": lambda s: gen.fam_hostile_srv(s) + gen.fam_hostile_cli(s),
             "thorough": lambda s: gen.fam_hostile_srv(s) + gen.fam_hostile_cli(s)},
+    "C18": {"level": "model_checking", "runner": run_c18, "engine": "tlc-grpc-timeout",
+            "technique": "TLA+ reference function (GrpcTimeout.tla); TLC enumerates the input domain and validates every observed handler deadline",
+            "text": "the gRPC wire rule for grpc-timeout is a total TLA+ function; TLC enumerates the structured input domain completely, each input is executed "
+                    "through the public API against the real tunnel inside a synctest bubble (virtual time), and TLC checks the three C18 formulas on each observation"},
     "C10": {"level": "model_checking", "hang": True,
             "quick": lambda s: gen.fam_shutdown(s, 8),
             "thorough": lambda s: gen.fam_shutdown(s, 0)},
@@ -69,6 +136,8 @@ PROPS = {
 
 
 def run(pid, spec, tier, seed, replay=None):
+    if spec.get("runner"):
+        return spec["runner"](pid, spec, tier, seed, replay)
     binary = orch.build_harness()
     if replay:
         sc = json.load(open(os.path.join(replay, "script.json")))["scenario"]
